@@ -990,12 +990,13 @@ def execNode : Nat → Node → XM Unit
         let ictx := pvs.foldl (fun (e : Env) kv => e.set kv.1 kv.2) base
         match src with
         | .static ti => executeTpl fuel ti ictx
-        | .lazy fe ifExists => do
+        | .lazy fe ifExists referrer => do
           let fname ← eval fuel fe
           if fname.v.toS = [] then xerr "Filename for 'include'-tag evaluated to an empty string."
           else
             let st ← get
-            let rootTpl := st.cs.tpls[fr.chain.headD 0]!
+            -- relative names resolve against the template the tag is written in
+            let rootTpl := st.cs.tpls[referrer]!
             let resolved := resolveFilename rootTpl.isString rootTpl.name fname.v.toS
             match fromFile T cfg fuel st.cs resolved with
             | .ok (ti, cs) => do
